@@ -59,6 +59,14 @@ func (s *Source) Read(p []byte) (int, error) {
 		return 0, nil
 	}
 	if s.Pos >= int64(len(s.Data)) {
+		if s.FaultAt == int64(len(s.Data)) && s.armed && s.Pos == s.FaultAt {
+			// the fault sits where end-of-file would be reported: every byte was delivered, then the source fails
+			s.Fired = true
+			if !s.Sticky {
+				s.armed = false
+			}
+			return 0, ErrInjectedRead
+		}
 		return 0, io.EOF
 	}
 	n := len(p)
